@@ -39,13 +39,17 @@ func (s *Store) snapshotRevert(revertTo Snapshot) error {
 		footer.PrevFooterOffset = s.footer.filePos
 	}
 
-	mref := revertToFooter.mmapRefAny()
-	if mref == nil || mref.fref == nil || mref.fref.file == nil {
+	fref := revertToFooter.fileRef()
+	if fref == nil || fref.file == nil {
 		footer.DecRef()
-		return fmt.Errorf("revert footer has no persisted segments")
+		return fmt.Errorf("revert footer was never persisted")
 	}
 
-	err = s.persistFooter(mref.fref.file, footer, persistOptions)
+	// The new footer lives in the same file.
+	footer.fref = fref
+	fref.AddRef()
+
+	err = s.persistFooter(fref.file, footer, persistOptions)
 	if err != nil {
 		footer.DecRef()
 		return err
